@@ -174,7 +174,23 @@ func synTraceLines(hs []*synHistory, dbg bool) ([]byte, []int) {
 		n++
 	}
 	for k, h := range hs {
-		emit(map[string]any{"ev": "new", "g": h.CaseIx + 1, "id": k + 1, "dbg": dbg})
+		// the -debug_parser output is free text and may be reworded: when no line of a history has
+		// the expected shape, the history is validated without the per-step events
+		hdbg := dbg
+		if dbg {
+			steps := 0
+			for _, es := range h.Events {
+				for _, e := range es {
+					if e["ev"] == "step" {
+						steps++
+					}
+				}
+			}
+			if steps == 0 {
+				hdbg = false
+			}
+		}
+		emit(map[string]any{"ev": "new", "g": h.CaseIx + 1, "id": k + 1, "dbg": hdbg})
 		for ii, in := range h.Inputs {
 			toks := in.Toks
 			if toks == nil {
@@ -182,6 +198,9 @@ func synTraceLines(hs []*synHistory, dbg bool) ([]byte, []int) {
 			}
 			emit(map[string]any{"ev": "parse", "input": toks, "failat": in.FailAt})
 			for _, e := range h.Events[ii] {
+				if !hdbg && e["ev"] == "step" {
+					continue
+				}
 				emit(e)
 			}
 		}
